@@ -417,11 +417,15 @@ func zzSets(db *storage.CacheDB, K, sizes int) []zzRec {
 func ZZ_C31_OntHeaderQuorum() {
 	db := zzInit()
 	K := 1 + zzsym.Choose("K", zzsym.Param("KMAX"))
-	model := zzSets(db, K, zzsym.Param("SIZES"))
-	bmax := zzsym.Param("BMAX")
+	// bounds per number of recorded sets (the exploration grows with K)
+	sizes, bmax := zzsym.Param("SIZES"), zzsym.Param("BMAX")
+	if K == 1 {
+		sizes, bmax = zzsym.Param("SIZES1"), zzsym.Param("BMAX1")
+	}
 	if K >= 3 {
 		bmax = zzsym.Param("BMAX3")
 	}
+	model := zzSets(db, K, sizes)
 	// a signature list shorter than the bookkeeper list: explored for K == 1 only (VerifyMultiSignature does
 	// not depend on the key-height list)
 	fewer := K == 1 && zzsym.Choose("fewer", 2) == 1
